@@ -11,6 +11,29 @@ from harness.encode import Unencodable
 from harness.props import rtdrv, c10, ruledrv
 
 
+def literal_args(rparts):
+    out = []
+
+    def walk_tree(t):
+        if not isinstance(t, tuple):
+            return
+        if t[0] == "leaf":
+            for a in list(t[1]["actuals"]) + list(t[1]["akw"].values()):
+                if isinstance(a, (dict, list)) and a:
+                    out.append(a)
+                    if isinstance(a, list):
+                        out.extend(x for x in a if isinstance(x, (dict, list)))
+        elif t[0] in ("and", "or", "xor"):
+            walk_tree(t[1])
+            walk_tree(t[2])
+
+    for p in rparts:
+        if isinstance(p, dict):
+            for k in ("key", "index", "value", "cond"):
+                walk_tree(p.get(k))
+    return out[:4]
+
+
 def run(rep, tier, seed):
     a = tlc.model_check_sharded("MC_GrammarPath", "MC_GrammarPath.cfg")
     rep.add_tlc(a, "A:MC_GrammarPath")
@@ -26,7 +49,22 @@ def run(rep, tier, seed):
         rparts = c10.spec_path_recipe(rng, rng.choice([1, 1, 2, 3]))
         if rng.random() < 0.5:
             rparts = [gen.prim_part(rng, doc) if isinstance(p, tuple) else p for p in rparts]
+        if rng.random() < 0.1:
+            # a part whose only condition compares the value with a literal mapping / list (keys that look like
+            # path specs in any position), on probe documents that contain that literal
+            lit = rng.choice([{"path": ["a"]}, {"b": 1, "path": ["a", 0]}, {"mode": "x", "path.length": ["a"], "z": None},
+                              {"a": {"b": 1, "path": [1]}}, [{"b": 2, "path": ["a"]}, 3], {"a": 1, "b": [1, 2]}])
+            fn = rng.choice(["equal_to", "equal_to", "not_equal_to", "in_"])
+            arg = [lit, 5] if fn == "in_" else lit
+            part = {"rk": rng.choice(["map", "list", "mol"]), "key": None, "index": None, "cond": None, "label": None,
+                    "value": ("leaf", {"datum": "value", "pre": "none", "fn": fn, "actuals": [arg], "akw": {}})}
+            rparts = [part] if rng.random() < 0.7 else [part, rng.choice([("prim", "b"), ("prim", 0)])]
         probes = [doc] + rtdrv.PROBES[:5]
+        lits = literal_args(rparts)
+        if lits:
+            # documents that CONTAIN the literal arguments of the parts' conditions, so that a condition
+            # comparing with a mapping / list literal selects something
+            probes = probes[:4] + [list(lits) + [0], {"a": lits[0], "b": lits[-1], "c": 1}]
         try:
             e = rtdrv.rt_path_event(len(events) + 1, rparts, via_specs, rng, probes)
         except Unencodable:
